@@ -14,7 +14,7 @@ LEVEL = 'exploration'
 
 def sizes(ctx):
     if ctx.tier == 'quick':
-        return dict(programs=28, inputs=5, pools=[1, 2, 8])
+        return dict(programs=56, inputs=5, pools=[1, 2, 8])
     return dict(programs=240, inputs=16, pools=[1, 2, 3, 4, 8, 16])
 
 
@@ -29,14 +29,19 @@ def split_rows(rng, rows, parts):
 
 
 def lattice_new_keys_only(prog, chunks):
-    """a later chunk may not add a second row for a lattice key that already has one (caller-made key duplication)"""
+    """a later chunk may not add a second row for a lattice key that already has one (caller-made key duplication): rows for a
+    lattice that some rule derives are only allowed in the first chunk (a run may already have created their key), rows of
+    input-only lattices only for keys not loaded before"""
+    derived = set(h.rel for r in prog.rules for h in r.heads)
     seen = set()
     out = []
-    for ch in chunks:
+    for ci, ch in enumerate(chunks):
         o = []
         for rel, tup in ch:
             r = prog.rel(rel)
             if r.is_lat:
+                if ci > 0 and rel in derived:
+                    continue
                 k = (rel, tup[:-1])
                 if k in seen:
                     continue
